@@ -38,7 +38,8 @@ KEY = "lw"            # name of the link attribute used for the link-weighted va
 TW = 0.37             # typical weight for the corrected variants (off the rational weight grid)
 RTOL = 1e-9           # float64 algebra
 RTOL_INV = 1e-7       # results of sparse LU / matrix inversion (random-walk betweenness)
-RTOL_EIG = 1e-6       # ARPACK eigsh(tol=1e-8)
+RTOL_EIG = 1e-4       # ARPACK eigsh(tol=1e-8) in shift-invert mode with sigma=W**2: eigenvector error
+#                       <~ 1e-8 * W / relative spectral gap; compared only when that gap >= 3e-3
 W_GRID = [0.5, 1.0, 1.5, 2.0, 3.0]
 P_GRID = [0.25, 0.5, 2.0 / 3.0]
 N_WORKERS = 8
@@ -467,6 +468,13 @@ def run_group(group, measures=None):
     M_nl = [m for m in measures if not m.needs_lists]
     M_l = [m for m in measures if m.needs_lists]
     conn0 = is_connected(A)
+    eig_ok = conn0
+    if conn0 and not directed:
+        # nsi_eigenvector_centrality (the only connected_only measure) additionally needs a spectral
+        # gap for ARPACK's result to be accurate to RTOL_EIG
+        sw = np.sqrt(w)
+        ev = np.linalg.eigvalsh(sw[:, None] * (A + np.eye(n0)) * sw[None, :])
+        eig_ok = bool(len(ev) >= 2 and ev[-1] > 0 and (ev[-1] - ev[-2]) / ev[-1] >= 3e-3)
     Rm = reach(A)
 
 
@@ -480,7 +488,7 @@ def run_group(group, measures=None):
 
     nets0 = mknets(A, w, attrs)
     NOCTX = {"l1": None, "l2": None}
-    base_nl = evaluate(nets0, NOCTX, M_nl, directed, conn0)
+    base_nl = evaluate(nets0, NOCTX, M_nl, directed, eig_ok)
     base_l = {}
 
     def check(ms, base, got, ctx0, ctx1, origin, splits, stage, lists):
@@ -514,18 +522,18 @@ def run_group(group, measures=None):
             A1, w1, attrs1, origin = apply_splits(A, w, attrs, splits)
             origin = np.array(origin)
             nets1 = mknets(A1, w1, attrs1)
-            got_nl = evaluate(nets1, NOCTX, M_nl, directed, conn0)
+            got_nl = evaluate(nets1, NOCTX, M_nl, directed, eig_ok)
             check(M_nl, base_nl, got_nl, NOCTX, NOCTX, origin, splits, stage, None)
             for lists in (item["lists"] or []):
                 lk = json.dumps(lists)
                 ctx0 = {"l1": list(lists[0]), "l2": list(lists[1])}
                 if lk not in base_l:
-                    base_l[lk] = evaluate(nets0, ctx0, M_l, directed, conn0)
+                    base_l[lk] = evaluate(nets0, ctx0, M_l, directed, eig_ok)
                 ctx1 = {}
                 for key in ("l1", "l2"):
                     ctx1[key] = list(ctx0[key]) + [i for i in range(n0, len(w1))
                                                    if origin[i] in ctx0[key]]
-                got_l = evaluate(nets1, ctx1, M_l, directed, conn0)
+                got_l = evaluate(nets1, ctx1, M_l, directed, eig_ok)
                 check(M_l, base_l[lk], got_l, ctx0, ctx1, origin, splits, stage, lists)
 
             def fail(chk, detail):
